@@ -11,7 +11,7 @@ from checks.distlib import parse_full
 
 
 def main(tier=None):
-    c = Check("C10", ["Wasp.Properties.C10"], tier)
+    c = Check("C10", ["Wasp.Properties.C10", "Wasp.Properties.Facts.C10"], tier)
     c.build()
     rng = c.rng
     samples = []
